@@ -16,6 +16,7 @@
 #pragma once
 
 #include <unifex/async_manual_reset_event.hpp>
+#include <unifex/detail/verif_hooks.hpp>
 #include <unifex/blocking.hpp>
 #include <unifex/get_allocator.hpp>
 #include <unifex/inplace_stop_token.hpp>
@@ -151,6 +152,7 @@ struct _spawn_future_op_base {
     // completion states; in the former case we want to mark it as abandoned and
     // in the latter we'll just allow the future to complete naturally
     auto expected = _future_state::init;
+    UNIFEX_VERIF_YIELD("future.abandon_cas");
     if (state_.compare_exchange_strong(
             expected,
             _future_state::abandoned,
@@ -170,9 +172,11 @@ struct _spawn_future_op_base {
             std::memory_order_relaxed)) {
       // we set the state to abandoned; the future will complete with set_done()
 
+      UNIFEX_VERIF_YIELD("future.abandon_stop");
       stopSource_.request_stop();
 
       // publish the result
+      UNIFEX_VERIF_YIELD("future.abandon_set");
       evt_.set();
     } else {
       UNIFEX_ASSERT(
@@ -192,6 +196,7 @@ struct _spawn_future_op_base {
 
     // the happy path is that we transition from init to the desired state
     auto expected = _future_state::init;
+    UNIFEX_VERIF_YIELD("future.complete_cas");
     if (state_.compare_exchange_strong(
             expected,
             desired,
@@ -224,6 +229,7 @@ struct _spawn_future_op_base {
 
       // now that the spawned operation is really done, wake up the future and
       // let it take things from here
+      UNIFEX_VERIF_YIELD("future.complete_set");
       evt_.set();
     } else {
       // the future has disappeared before we completed so we need to coordinate
@@ -251,6 +257,7 @@ struct _spawn_future_op_base {
       // the future abandoned the operation but hasn't dropped its ownership
       // stake, yet; we need to coordinate who's going to delete the operation
       // state
+      UNIFEX_VERIF_YIELD("future.neg_cas");
       if (state_.compare_exchange_strong(
               expected,
               _future_state::complete,
@@ -271,11 +278,13 @@ struct _spawn_future_op_base {
     UNIFEX_ASSERT(expected == _future_state::complete);
 
     // we own deletion
+    UNIFEX_VERIF_YIELD("future.neg_delete");
     deleter_(this, expected);
   }
 
   // invoked by the future if it's dropped before being started
   void drop() noexcept {
+    UNIFEX_VERIF_YIELD("future.drop_load");
     auto state = state_.load(
         // either we'll see init, in which case we'll do more synchronizing, or
         // we'll see a completion signal, in which case we'll synchronize
@@ -286,11 +295,13 @@ struct _spawn_future_op_base {
       case _future_state::init:
         // we're being dropped before the spawned operation has completed;
         // request stop to hurry it up
+        UNIFEX_VERIF_YIELD("future.drop_stop");
         stopSource_.request_stop();
 
         // we want to give the spawned operation responsibility to delete the
         // operation state but it might have finished since we read the state as
         // init so try to assign the complete state with a CAS
+        UNIFEX_VERIF_YIELD("future.drop_cas");
         if (state_.compare_exchange_strong(
                 state,
                 _future_state::complete,
@@ -324,9 +335,11 @@ struct _spawn_future_op_base {
         // reading evt_.ready() performs a load-acquire on the event so this is
         // how we consume the operation's last writes
         while (!evt_.ready())
+          UNIFEX_VERIF_SPIN("future.drop_spin")
           ;
 
         // having synchronized with evt_, we can now clean up
+        UNIFEX_VERIF_YIELD("future.drop_delete");
         deleter_(this, state);
 
         return;
@@ -729,15 +742,18 @@ struct _future_sender_from_stop_token<T...>::type final {
 
                 using return_t = variant_sender<value_t, error_t, done_t>;
 
+                UNIFEX_VERIF_YIELD("future.fut_load");
                 auto state = rawOp->state_.load(std::memory_order_relaxed);
 
                 // we capture state by reference because it may be updated by
                 // the compare_exchange_strong below
                 scope_guard cleanup = [rawOp, &state]() noexcept {
+                  UNIFEX_VERIF_YIELD("future.fut_delete");
                   rawOp->deleter_(rawOp, state);
                 };
 
                 if (state == _future_state::abandoned) {
+                  UNIFEX_VERIF_YIELD("future.fut_cas");
                   if (rawOp->state_.compare_exchange_strong(
                           state,
                           _future_state::complete,
